@@ -96,7 +96,12 @@ class DBusClientConnection (txdbus.protocol.BasicDBusProtocol):
         """
         Called when the transport loses connection to the bus
         """
-        if self.busName is None:
+        if not self._authenticated:
+            # Lost before or during authentication: nobody holds this
+            # connection yet, but connect()'s Deferred is waiting for it.
+            factory = getattr(self, 'factory', None)
+            if factory is not None:
+                factory._failed(reason)
             return
 
         for cb in self._dcCallbacks:
@@ -650,10 +655,14 @@ class DBusClientFactory (Factory):
         self.d = defer.Deferred()
 
     def _ok(self, proto):
-        self.d.callback(proto)
+        if not self.d.called:
+            self.d.callback(proto)
 
     def _failed(self, err):
-        self.d.errback(err)
+        # The first outcome wins: a refused Hello is followed by the loss of
+        # the connection, which must not fire the Deferred a second time.
+        if not self.d.called:
+            self.d.errback(err)
 
     def getConnection(self):
         """
